@@ -227,7 +227,7 @@ pub fn run(ctx: &mut Ctx) {
             continue;
         }
         let mut crng = rng.fork(my);
-        let kind = [9u64, 3, 4, 9, 9, 0][k % 6];
+        let kind = [9u64, 3, 4, 9, 9, 0, 10][k % 7];
         let mut spec = c01::gen_spec(&mut crng, kind, true);
         if kind == 4 && spec.comp == Comp::None {
             spec.comp = Comp::Zstd(3);
